@@ -394,7 +394,13 @@ func (ab *AsmBuf) asmandsz(p *Prog, a *Addr, r int, rex int) {
 	base = int(a.Reg)
 
 	ab.rexflag |= regrex[base]&Rxb | rex
-	if base == REG_NONE || (REG_CS <= base && base <= REG_GS) {
+	if base == REG_NONE {
+		// x64.Prog maps the rip base register to REG_NONE:
+		// mod=00 rm=101 is [rip+disp32] in 64-bit mode
+		ab.Put1(byte(0<<6 | 5<<0 | r<<3))
+		goto putrelv
+	}
+	if REG_CS <= base && base <= REG_GS {
 
 		// temporary
 		ab.Put2(
